@@ -71,7 +71,7 @@ CLAIMED["C16"] = {
 
 CLAIMED["C18"] = {
     "category": "other",
-    "text": "The premise list of the strided-iterator lemma, each decided on MIR: the exhaustion guard dominates the pointer formation (fact i < entries); pointer = memory_map.as_ptr() + i * desc_size read as one EFIMemoryDesc; constructor: entries = len / desc_size with facts len % desc_size == 0, desc_size >= 40, desc_size % 8 == 0, base aligned, version == 1 (failing edges diverge); the iterator is constructed only there, fields private, next() writes only i (+1, on the Some path); len() = entries - i; descriptor layout equals UEFI's. The in-bounds/alignment/count conclusion follows by the written hand proof for all sizes and lengths.",
+    "text": "The premise list of the strided-iterator lemma, each decided on MIR: the exhaustion guard dominates the pointer formation (fact i < entries); pointer = memory_map.as_ptr() + i * desc_size read as one EFIMemoryDesc; constructor: entries = len / desc_size with facts len % desc_size == 0, desc_size >= 40, desc_size % 8 == 0, base aligned, version == 1 (failing edges diverge) - and conversely every panic edge of memory_areas() / the constructor lies under the negation of one of these five conditions (S3x: the rejection is exact, a stricter test is reported); the iterator is constructed only there, fields private, next() writes only i (+1, on the Some path); len() = entries - i; descriptor layout equals UEFI's. The in-bounds/alignment/count conclusion follows by the written hand proof for all sizes and lengths.",
     "design_ref": "DESIGN.md §4 C18",
     "note": TB + "; the arithmetic step i < L/d and d | L => i*d + d <= L is a hand proof over the decided premises",
     "technique": "guard-dominance facts + value terms of pointer/stride/count + who-may-construct / who-writes census + layout table",
@@ -81,7 +81,7 @@ CLAIMED["C19"] = {
     "category": "other",
     "text": "Premises of the cursor lemma decided on MIR: sections() establishes n * entry_size <= len(sections) (64-bit product of the zero-extended fields) and shndx == 0 || shndx < n, with diverging failing edges; next() has a single loop with exactly one cursor advance by entry_size and one counter decrement per iteration, hands out the loop-head cursor, yields iff section_type() != Unused and stops iff the counter is 0; get()/string_table() classify entry_size exactly {40 -> ELF32 struct, 64 -> ELF64 struct, else panic} with matching pointee types; both header structs equal the gABI layouts and every decoding method reads its specified field; the SHT table.",
     "design_ref": "DESIGN.md §4 C19",
-    "note": TB + "; name()/string_table() follow an address stored in the tag (documented external memory) and are outside the bounds claim; cursor = base + (n - remaining) * es is a hand proof over the decided premises",
+    "note": TB + "; the named ElfSectionFlags constants equal the ELF gABI sh_flags bits (E6); name()/string_table() follow an address stored in the tag (documented external memory) and are outside the bounds claim; cursor = base + (n - remaining) * es is a hand proof over the decided premises",
     "technique": "guard facts incl. disjunctive merge facts + loop-carried variable pairing + exact interval classifier + layout/read-set tables",
 }
 
@@ -137,7 +137,7 @@ CLAIMED["C07"] = {
     "category": "other",
     "text": "Constructor images of all 35 public tag constructors of both crates: for sized kinds the struct-literal aggregate (header type = the kind's variant/number, size = the oracle's exact unpadded size, every field fed by the like-named parameter, reserved fields zero); for dynamically sized kinds the slice list handed to new_boxed laid against the compiler's layout (piece k covers field k's bytes from offset 8, variable part at the tail offset, to_ne_bytes of the right parameter, literal zeros for reserved); alignment 8 of all 33 tag types; discriminants of six wire enums; FramebufferType::id/serialize per variant; read-back naming between constructor parameters and accessors (with C04/C11 read-sets). One open finding (console flag encodings). Little-endian only.",
     "design_ref": "DESIGN.md §4 C07",
-    "note": TB + "; imports C16 (new_boxed sets size / concatenates); big-endian targets not decided",
+    "note": TB + "; the variable part of a dynamically sized constructor must be the bytes of one parameter (or serialize(buffer_type) for the framebuffer), a constant in a parameter-backed field is a dropped argument; imports C16 (new_boxed sets size / concatenates); big-endian targets not decided",
     "technique": "constructor-image extraction from MIR aggregates and slice lists laid against layout tables, parameter provenance by term identity, enum discriminant tables",
 }
 
